@@ -122,6 +122,24 @@ def window_class(body: bytes) -> str:
         return 'normal-window'
 
 
+_layouts: dict = {}
+
+
+def layout_of(stream):
+    """What kind of stored media a synthetic stream is, as far as the validator's expectations go: segment durations that
+    vary (a $Number$ template can only state their mean) and/or a first decode time that is not 0."""
+    if stream not in _layouts:
+        st = crawl.Stored.fixture(stream)
+        irregular = offset = False
+        for f in st.files.values():
+            durs = {sg['duration'] for sg in f['segs'][:-1]}
+            irregular |= len(durs) > 1
+            offset |= bool(f['segs'] and f['segs'][0]['tfdt'])
+        _layouts[stream] = '+'.join(x for x, on in (('irregular-durations', irregular), ('first-decode-time!=0', offset)) if on) \
+            or 'regular'
+    return _layouts[stream]
+
+
 def accept_item(item):
     kind, stream, template, mode, opts, clocks, tier = item
     w = W.World.shared()
@@ -142,6 +160,9 @@ def accept_item(item):
         acc.count('transitions', len(s.client.log))
         acc.count('evaluations')
         rec = {'kind': 'accept', 'url': url, 'mode': mode, 'now': clock, 'opts': opts, 'mps': mps, 'template': template}
+        # findings on the synthetic layouts name the layout (each is a different kind of stored media)
+        rec['tag'] = f'|layout={layout_of(stream)}' if stream in SYNTH_STREAMS else ''
+        rec['short'] = stream in SYNTH_STREAMS
         judge_pristine(acc, s, url, mode, clock, probe.body, rec)
     return acc
 
@@ -157,18 +178,23 @@ def judge_pristine(acc, s, url, mode, clock, manifest_body, rec):
         # what it was given
         acc.outcome(('server-exception', s.client.exceptions[0][1]))
     if s.crash:
-        acc.violation(sig('accept', 'validator-exception', s.crash, mode),
+        acc.violation(sig('accept', 'validator-exception', s.crash, mode) + rec.get('tag', ''),
                       f'{url} at {clock}: the validator raised {s.crash}', rec)
         return
+    tag = rec.get('tag', '')
     seen = set()
     for e in s.errors:
-        k = sig('accept', 'false-error', err_site(e), mode, msg_class(e))
+        k = sig('accept', 'false-error', err_site(e), mode, msg_class(e)) + tag
         if k in seen:
             continue
         seen.add(k)
         acc.violation(k, f'{url} at {clock}: validator reports "{str(e)[:200]}" on pristine server output', rec)
-    if not s.errors and not s.finished:
-        acc.violation(sig('accept', 'does-not-terminate', mode, window_class(manifest_body)),
+    if not s.errors and not s.finished and mode != 'live' and rec.get('short'):
+        # a static presentation shorter than the amount of media the validator was asked to collect can never "finish";
+        # the runner of the validator (basic.py) makes at most two passes over a static manifest and stops
+        acc.outcome(('static-shorter-than-requested', mode))
+    elif not s.errors and not s.finished:
+        acc.violation(sig('accept', 'does-not-terminate', mode, window_class(manifest_body)) + tag,
                       f'{url} at {clock}: not finished after {s.rounds} validate/refresh rounds '
                       f'({len(s.client.log)} requests)', rec)
 
@@ -496,6 +522,9 @@ def _dispatch(item):
     return accept_item(item)
 
 
+SYNTH_STREAMS = ('synirr', 'synoff', 'synnot', 'synenc', 'synwild', 'synnum', 'synmk', 'syndef', 'syntrk')
+
+
 def vectors(tier):
     out = []
     for lv in ((0, 1) if tier == 'quick' else (0, 1, 2)):
@@ -522,6 +551,17 @@ def plan(tier):
             for o in ({'depth': '8', 'timeline': '1'}, {'depth': '8', 'timeline': '1', 'patch': '1'},
                       {'depth': '16', 'timeline': '1', 'patch': '1'}, {'depth': '8', 'timeline': '1', 'patch': '1', 'mup': '2'}):
                 items.append(('plain', stream, template, 'live', o, CLOCKS[:1], tier))
+    # the kinds of stored media: every synthetic stream (irregular durations, non-zero first decode time, no tfdt, fragment
+    # numbers from 7, default durations from tfhd/trex, track ids 3/5 with padding boxes, 8/16-byte IVs in either order,
+    # sub-samples, two key ids, audio under its own key)
+    for stream in SYNTH_STREAMS:
+        for mode in ('vod', 'live'):
+            for o in ({}, {'timeline': '1'}) + (({'drm': 'all'}, {'drm': 'playready', 'timeline': '1'})
+                                                if stream in ('synenc', 'synmk') else ()):
+                oo = dict(o)
+                if mode == 'live':
+                    oo['depth'] = '20'
+                items.append(('plain', stream, 'hand_made', mode, oo, CLOCKS[:1], tier))
     for mode in ('live', 'vod'):
         for o in ({}, {'timeline': '1'}, {'depth': '8'}, {'depth': '20', 'timeline': '1'}, {'events': 'ping'}):
             oo = dict(o)
@@ -558,11 +598,11 @@ def replay(record):
         s = session(w, url, record['mode'], record['opts'], record['now'])
         out = []
         if s.crash:
-            out.append((sig('accept', 'validator-exception', s.crash, record['mode']), s.crash))
+            out.append((sig('accept', 'validator-exception', s.crash, record['mode']) + record.get('tag', ''), s.crash))
         for e in s.errors:
-            out.append((sig('accept', 'false-error', err_site(e), record['mode'], msg_class(e)), str(e)[:200]))
+            out.append((sig('accept', 'false-error', err_site(e), record['mode'], msg_class(e)) + record.get('tag', ''), str(e)[:200]))
         if not s.errors and not s.crash and not s.finished:
-            out.append((sig('accept', 'does-not-terminate', record['mode'], window_class(w.get(mpd.split_url(url) if url.startswith('http') else url).body)), 'unfinished'))
+            out.append((sig('accept', 'does-not-terminate', record['mode'], window_class(w.get(mpd.split_url(url) if url.startswith('http') else url).body)) + record.get('tag', ''), 'unfinished'))
         return out
     base = next(b for b in BASES + MORE_BASES if b[0] == record['base'])
     name, url, mode, opts = base
